@@ -15,6 +15,7 @@ static void buildWorld() {
   World& w = newWorld();
   W = &w;
   ToyEd& t = *w.t;
+  w.ep->settlement = (int32_t)verif_choice(1, 2);   // small settlement interval: the expiry boundary is inside the explored trees
   // specs first (addEd reads them)
   uint8_t par[NED + 1] = {0};
   for (int e = 2; e <= NED; e++) {
@@ -37,6 +38,17 @@ static void buildWorld() {
     uint32_t b = verif_range(1, NED);
     g.bop = (uint8_t)(b == 1 ? 1 : 10 + b);
   }
+#ifdef REREF
+  // one block may reference, in its second group, the SP block defined by another block (same header => shared, reference counted at two heights)
+  {
+    uint32_t c = verif_choice(0, NED), r = verif_choice(2, NED);
+    if (c >= 2 && c != r && t.spec[r][0].present && !t.spec[c][1].present) {
+      GroupSpec& g = t.spec[c][1];
+      g.present = true; g.btcId = t.spec[r][0].btcId; g.btcPrev = t.spec[r][0].btcPrev;
+      verif_cover(21);
+    }
+  }
+#endif
   uint32_t fb = verif_choice(0, NED);
   if (fb >= 2) {
     uint32_t fg = verif_choice(0, 1);
